@@ -121,7 +121,7 @@ def run(prop, args):
                     wd = (tot * split) // 2
                     grid.append((cm, (uf, 8 if split else 24, wd, tot - wd)))
     grid = [g for g in sorted(set(grid)) if O.period_closed_form(g[0], g[1][0], g[1][2], g[1][3]) <= 100]
-    jobs = grid + [g for g in _gen((tier, args.seed, 60 if tier == "quick" else 800)) if g not in set(grid)]
+    jobs = grid + [g for g in _gen((tier, args.seed, 60 if tier == "quick" else 4000)) if g not in set(grid)]
     res = R.pmap(_group, [(cm, list(c8)) for cm, c8 in jobs], chunksize=1)
     rep.exhaustive = [{"box": "cost grid cm in 1..4 x uf in {.5,1,2} x (wd+rd) in {0..15} x 3 splits (includes integer ratios (wd+rd)/uf where the closed form's <= matters)",
                        "cases": len(grid), "exhaustive": True}]
